@@ -10,6 +10,8 @@ Decided (structural):
    empty clauses are skipped; onceo = condu over one clause; matcha/matchu delegate unchanged.
  (round 4, shared) Conj::from_vec / from_array / from_conjunctions (the rest goals of a committed
    clause) are total, order-preserving folds from `succeed`.
+ (round 5, shared with C14/C06) Conj::new drops only a constant `true` operand; a bracketed conjunction in
+   head position stays one goal (construct templates).
 """
 import mirlib
 import streams
@@ -313,6 +315,8 @@ def run(ctx, fb, cfg):
     import builders
 
     builders.check_all(ctx, lib, R + "K6.builders", only=("Conj",))
+    # Conj::new (what the builder folds with): a constant `true` operand is dropped, never the *other* goal
+    streams.check_conj_new(ctx, lib, R + "K6.conj-new", "crate::operator::conj::Conj::new", "Goal", "Conj")
     # matcha / matchu commit on the *first goal* of an arm: the macro must hand each arm over as
     # [eq(term, pattern), body...] (template rule shared with C13)
     if cfg == "lib-default":
@@ -322,3 +326,7 @@ def run(ctx, fb, cfg):
         S = macrolib.load_sem(ctx, fb)
         if S is not None:
             C13.check_templates(_Pfx(ctx), S)
+            # the head of a clause is its first *written* goal: a bracketed conjunction stays one goal (with C14)
+            import C14
+
+            C14.check_constructs(_Pfx(ctx), S)
